@@ -138,7 +138,7 @@ def check(prog, run):
         run.looked_at(m)
         reads = shapes.attr_reads(prog, m, m.params[1], depth=3)
         # `nodes=[type_def]` / `node=node` keeps the whole definition (directives are consumed later from it)
-        keeps_node = any(isinstance(k, ast.keyword) and k.arg in ("node", "nodes") for k in ast.walk(m.node))
+        keeps_node = shapes.passes_as_keyword(prog, m, m.params[1], ("node", "nodes"))
         for slot in ncs[cname].content_slots:
             if slot == "directives" and keeps_node:
                 r.instance("%s: %s.directives kept through node=/nodes=" % (meth, cname))
@@ -356,7 +356,7 @@ def check(prog, run):
         rr.instance("%s: %d returning paths" % (mname, len(rets)))
         for st, env in rets:
             if isinstance(st.value, ast.Name) and ps and st.value.id == ps[0]:
-                atoms = {k: v for k, v in env.items() if k not in (boolx.CALLS, boolx.STMTS)}
+                atoms = {k: v for k, v in env.items() if k not in boolx.META}
                 allowed = any(v is True and any(w in k for w in ("SPECIFIED", "INTROPSPECTION", "INTROSPECTION", "_PROTECTED", "is_introspection", "_DEFAULT_TYPES_MAP")) for k, v in atoms.items()) \
                     or any(v is True and "WrappingType" in k or (v is True and "ListType" in k) or (v is True and "NonNullType" in k) for k, v in atoms.items())
                 if not allowed:
